@@ -133,7 +133,8 @@ def scan(source: str, callback: callable):
             state.start = state.end = -1
         else:
             if state.start == -1:
-                state.start = scanner.pos
+                # NB: token may start with selector colon(s) consumed above, e.g. `::before`
+                state.start = scanner.start
 
             if scanner.eat(Chars.LeftRound):
                 state.expression += 1
